@@ -379,7 +379,7 @@ Qed.
 Lemma drop_q_remove : forall q l, drop_q q l = remove Z.eq_dec q l.
 Proof. intros q l. unfold drop_q. symmetry. apply remove_filter_neq. Qed.
 
-Definition in_range (N : nat) (x : Z) : Prop := 0 <= x < Z.of_nat N.
+
 
 Lemma vp_search_all : forall d N t q k,
   metric_on (in_range N) d -> in_range N q ->
@@ -629,4 +629,15 @@ Lemma kernel_comparator_lemma : forall kpp kpa kaa kpb kbb da db : Z,
   (-2 * kpa + kaa < -2 * kpb + kbb <-> da < db).
 Proof.
   intros kpp kpa kaa kpb kbb da db Ha Hb Ea Eb. split; intros H; nia.
+Qed.
+
+Lemma vptree_checked_exact_lemma : forall d N t q k,
+  metric_on (in_range N) d -> in_range N q -> (k < N)%nat ->
+  vp_inv_b d t = true -> vp_holds_b N t = true ->
+  exists l, vp_row_fixed d t q k = Some l /\ is_knn d N q k l.
+Proof.
+  intros d N t q k Hm Hq Hk Hinv Hholds.
+  apply vptree_wrapper_exact_lemma; try assumption.
+  - now apply vp_inv_b_spec.
+  - now apply vp_holds_b_sound.
 Qed.
